@@ -265,7 +265,7 @@ class Input(ContextManager["Input"]):
             return self.queued_interrupting_events.pop(0)
 
         if self.queued_scheduled_events:
-            self.queued_scheduled_events.sort()
+            self.queued_scheduled_events.sort(key=lambda when_and_event: when_and_event[0])
             when, _ = self.queued_scheduled_events[0]
             if when < time.time():
                 logger.debug(
